@@ -149,35 +149,48 @@ def run(ctx, report: Report) -> None:
     # ---- R4 ----------------------------------------------------------------------------------------------
     r4 = report.rule('C05-R4', 'list flags by pseudo-class', floor=5)
     _, po = src.func('css_parser.CSSParser.parse_pseudo_open')
-    name_param = po.args.args[2].arg
     F = {k: inv.const('css_parser', k) for k in ('FLG_PSEUDO', 'FLG_OPEN', 'FLG_NOT', 'FLG_RELATIVE', 'FLG_FORGIVE')}
     want = {':not': F['FLG_NOT'], ':has': F['FLG_RELATIVE'], ':is': F['FLG_FORGIVE'], ':where': F['FLG_FORGIVE'], ':matches': 0}
     complex_names = {n for n in inv.const('css_parser', 'PSEUDO_COMPLEX') if 'contains' not in n}
     if set(want) != complex_names:
         r4.violation('PSEUDO_COMPLEX names', pmod.where(po), f'PSEUDO_COMPLEX lists {sorted(complex_names)}, the flag table knows {sorted(want)}')
-    prefix = []
-    for st in po.body:
-        if isinstance(st, ast.Expr) and isinstance(st.value, ast.Call):
-            break
-        prefix.append(st)
-    call = [c for c in walk_no_nested(po) if isinstance(c, ast.Call) and call_name(c) == 'self.parse_selectors']
-    if len(call) != 1 or len(call[0].args) < 3:
-        raise AnalysisError('parse_pseudo_open: self.parse_selectors(iselector, index, flags) not found')
-    flag_arg = call[0].args[2]
+    from ..interp import Obj, Raised, call_function
+    from ..tables import fresh_sel, match_obj, parser_obj
     for nm, extra in sorted(want.items()):
-        ev = miniev.MiniEval({name_param: nm}, consts=lambda n: inv.folder.lookup('css_parser', n))
+        rec = {}
+        nested = Obj(_cls='css_types.SelectorList', _name='NESTED', selectors=(), is_not=False, is_html=True, __iter__=[], __len__=0)
+
+        def parse_selectors(it_, index=0, flags=0, _r=rec, _n=nested):
+            _r['flags'], _r['index'] = flags, index
+            return _n
+        sel = fresh_sel()
+        m = match_obj({'name': nm, 'open': '('}, start=3, end=9)
         try:
-            ev.block(prefix)
-            got = ev.ev(flag_arg)
+            # through parse_pseudo_class, the way the parser reaches it
+            res = call_function(ctx, 'css_parser.CSSParser.parse_pseudo_class', [sel, m, False, iter(()), False], {},
+                                {'css_parser.CSSParser.parse_selectors': parse_selectors}, parser_obj())
+        except Raised as e:
+            res = f'raises {e.exc_name}'
         except miniev.Unsupported as e:
-            raise AnalysisError(f'parse_pseudo_open: outside the evaluable fragment: {e}')
+            raise AnalysisError(f'parse_pseudo_class/parse_pseudo_open: outside the evaluable fragment: {e}')
+        got = rec.get('flags')
         exp = F['FLG_PSEUDO'] | F['FLG_OPEN'] | extra
-        r4.instance({'pseudo_class': nm, 'flags': got, 'expected': exp}, key=nm)
-        r4.obligation(got == exp)
+        appended = len(sel.get('selectors')) == 1 and sel.get('selectors')[0] is nested
+        marker = res[1] if isinstance(res, (tuple, list)) and len(res) == 2 else None
+        ok = got == exp and rec.get('index') == 9 and appended and marker is False and (isinstance(res, (tuple, list)) and res[0] is True)
+        r4.instance({'pseudo_class': nm, 'flags': got, 'expected': exp, 'nested_list_appended': appended, 'resume_index': rec.get('index'),
+                     'html_only_marker_of_the_enclosing_list': marker}, key=nm)
+        r4.obligation(ok)
         if got != exp:
             r4.violation(f'parse_pseudo_open {nm}', pmod.where(po),
-                         f'{nm}(...) is parsed with flags {got:#x}, expected {exp:#x} (PSEUDO|OPEN plus NOT for :not, RELATIVE for :has, '
+                         f'{nm}(...) is parsed with flags {got}, expected {exp:#x} (PSEUDO|OPEN plus NOT for :not, RELATIVE for :has, '
                          f'FORGIVE for :is/:where, nothing for :matches)')
+        elif not ok:
+            r4.violation(f'parse_pseudo_open {nm} result', pmod.where(po),
+                         f'{nm}(<an HTML-only list>) at offsets 3..9: the handler returns {res!r}, appends the nested list: {appended}, '
+                         f'resumes at {rec.get("index")}; expected (True, False), the nested list appended once, parsing resumed at 9. The '
+                         f'HTML-only marker of a nested list must not spread to the enclosing list (it would be evaluated under the '
+                         f'internal prefix map and iframe restriction, and skipped in XML)')
 
     # ---- R5 ----------------------------------------------------------------------------------------------
     r5 = report.rule('C05-R5', 'comma resets per-alternative state; implied universal selector (parsed token sequences)', floor=10)
@@ -186,3 +199,9 @@ def run(ctx, report: Report) -> None:
     implied_universal_tables(ctx, r5)
     from .sem import single_token_table
     single_token_table(ctx, r5)
+
+    # the laws quantify over lists evaluated with ONE matcher: an answer must not depend on what was evaluated before
+    from .sem import default_button_table, lang_memo_table
+    default_button_table(ctx, r3)
+    lang_memo_table(ctx, r3)
+
